@@ -173,6 +173,24 @@ def run(rep, model, tier, seed, broken=()):
                 prob = dict(what="page text differs from the model", impl_status=ir["status"], model_status=mr["status"],
                             impl=(ir["text"] or "")[:600], model=(mr["text"] or "")[:600])
                 dom = False
+                if ir["status"] == "ok" and mr["status"] == "ok" and premise_ok(c):
+                    # is the difference a violation of the property itself?  (1) the nesting of the entry
+                    # directives as docutils sees it differs from the model page's (the model page is proved
+                    # to be read back as the entry skeleton); (2) a line left its entry: on a page without
+                    # dangling doccomments every non-blank line after the title frame that starts in column 0
+                    # opens a directive
+                    try:
+                        ski, skm = docutils_check(ir["text"])[1], docutils_check(mr["text"])[1]
+                    except Exception:
+                        ski = skm = None
+                    stray = None if has_dangling(c) else stray_line(ir["text"])
+                    if ski is not None and skm is not None and norm_skeleton(ski) != norm_skeleton(skm):
+                        prob["what"] = "entries are not nested as in the model page (directive skeleton differs)"
+                        dom = True
+                    elif stray is not None:
+                        prob["what"] = "a line of an entry starts in column 0: it is outside its entry's directive"
+                        prob["line"] = stray
+                        dom = True
             if prob:
                 nbad += 1
                 if nbad <= 3:
@@ -212,6 +230,21 @@ def f28_trigger(page, prob):
     transition marker: docutils reports 'Unexpected section title or transition' inside the field"""
     return bool(prob and "Unexpected section title or transition" in str(prob.get("message", ""))
                 and F28_LINE.search(page or ""))
+
+
+def has_dangling(c):
+    from props.common_ast import walk
+    if "ast" not in c:
+        return b"#[[[" in c["data"] and True     # unknown structure: do not apply the column-0 rule
+    return any(n.get("kind") == "dangling" for n in walk(c["ast"]["body"]))
+
+
+def stray_line(page):
+    lines = page.split("\n")
+    for l in lines[4:]:          # after the empty first line and the three lines of the title frame
+        if l and not l[0].isspace() and not l.startswith(".. "):
+            return l[:120]
+    return None
 
 
 def premise_ok(c):
